@@ -1,4 +1,6 @@
 import MetricsVerif.Proofs.Tcp
+import MetricsVerif.Proofs.TcpProd
+import MetricsVerif.Generated.SourceFacts
 
 /-
 C11 — the TCP exporter streams whole frames to every connected client, whatever others do.
@@ -405,5 +407,203 @@ example : ∃ s, initTransport {} (some 1) = some s ∧
       .wake [] [fA] [(2, [.wouldBlock, .wouldBlock])], .writable 2 [.ok 3, .ok 4]]).clients.map
         (fun p => (p.2.received, p.2.dropped)) = [([3, 10, 20, 30, 3, 10, 20, 30], 1)] :=
   ⟨_, rfl, by decide⟩
+
+/-! ### the producer side: emitters, channel, waker, read loop (`Model/TcpProd.lean`)
+
+Clause "every metric emitted at a rate within the configured buffer is delivered …": what links an emission
+(`Handle::increment` → `State::push_metric`) to a batch of the fan-out.  All theorems are for ALL schedules of
+ANY number of emitting threads against the transport thread, at the granularity of one shared-memory operation
+(gate load / `try_send` / `wake` / poll return / one `try_recv`), by induction over the schedule
+(`TcpProd.run_inv`). -/
+
+/-- the system as the code has it: `push_metric` sends, then wakes -/
+abbrev prodInit (cap : Option Nat) (gate : Bool) (progs : List (List Nat)) : TcpProd.Sys :=
+  TcpProd.init .sendThenWake cap gate progs
+
+/-- **no lost wake-up.** In every reachable state a non-empty channel is covered: a wake-up is pending, or the
+    transport thread is still inside its read loop (it will look at the channel again before it polls), or
+    some emitter has enqueued and is about to call `wake()`. -/
+theorem producer_no_lost_wakeup (cap : Option Nat) (gate : Bool) (progs : List (List Nat))
+    (sched : List TcpProd.Tid) :
+    let s := TcpProd.run (prodInit cap gate progs) sched
+    s.chan ≠ [] → s.wakePending = true ∨ s.tpc = .loop ∨ ∃ i, (s.ems i).pc = .wake :=
+  (TcpProd.run_inv _ sched (TcpProd.init_inv cap gate progs)).covered
+
+/-- … hence the system is never stuck with an event in the channel: some thread can move. -/
+theorem producer_never_stuck (cap : Option Nat) (gate : Bool) (progs : List (List Nat))
+    (sched : List TcpProd.Tid) :
+    (TcpProd.run (prodInit cap gate progs) sched).chan ≠ [] →
+      ∃ tid, TcpProd.enabled (TcpProd.run (prodInit cap gate progs) sched) tid = true := by
+  intro hne
+  rcases producer_no_lost_wakeup cap gate progs sched hne with hw | hl | ⟨i, hi⟩
+  · exact ⟨.t, by simp [TcpProd.enabled, hw]⟩
+  · exact ⟨.t, by simp [TcpProd.enabled, hl]⟩
+  · exact ⟨.em i, by simp [TcpProd.enabled, hi]⟩
+
+/-- **channel to batch: nothing lost, FIFO.** What the channel accepted is, in order, what was handed to the
+    fan-out, then what the read loop holds, then what is still queued. -/
+theorem accepted_is_delivered_buffered_queued (cap : Option Nat) (gate : Bool) (progs : List (List Nat))
+    (sched : List TcpProd.Tid) :
+    let s := TcpProd.run (prodInit cap gate progs) sched
+    s.accepted = s.delivered ++ s.buffered ++ s.chan :=
+  (TcpProd.run_inv _ sched (TcpProd.init_inv cap gate progs)).conserved
+
+/-- **every accepted emission reaches a batch.** When nothing can move any more — every emitter has returned,
+    the transport thread is blocked in `poll` and no wake-up is pending — the channel and the read loop are
+    empty and everything the channel ever accepted has been handed to the fan-out, in channel order. -/
+theorem quiescent_all_delivered (cap : Option Nat) (gate : Bool) (progs : List (List Nat))
+    (sched : List TcpProd.Tid) :
+    let s := TcpProd.run (prodInit cap gate progs) sched
+    (∀ i, (s.ems i).pc = .done) → s.tpc = .idle → s.wakePending = false →
+    s.chan = [] ∧ s.buffered = [] ∧ s.delivered = s.accepted := by
+  intro s hdone hidle hwp
+  have hinv := TcpProd.run_inv _ sched (TcpProd.init_inv cap gate progs)
+  have hch : s.chan = [] := by
+    apply Classical.byContradiction
+    intro hne
+    rcases hinv.covered hne with hw | hl | ⟨i, hi⟩
+    · rw [hwp] at hw; cases hw
+    · rw [hidle] at hl; cases hl
+    · rw [hdone i] at hi; cases hi
+  have hb : s.buffered = [] := hinv.idleEmpty hidle
+  refine ⟨hch, hb, ?_⟩
+  have hc : s.accepted = s.delivered ++ s.buffered ++ s.chan := hinv.conserved
+  rw [hc, hb, hch]; simp
+
+/-- **within the buffer = accepted.** `try_send` takes the metric whenever the channel holds fewer than
+    `buffer_size` events (always, without a limit): an emission is only ever dropped on the producer side when
+    the channel is full, which is the documented back-pressure rule. -/
+theorem send_accepted_within_buffer (s : TcpProd.Sys) (id : Nat)
+    (h : s.cap = none ∨ ∃ n, s.cap = some n ∧ s.chan.length < n) :
+    (s.trySend id).chan = s.chan ++ [id] ∧ (s.trySend id).accepted = s.accepted ++ [id] := by
+  have hr : s.room = true := by
+    rcases h with h | ⟨n, h, hn⟩
+    · simp [TcpProd.Sys.room, h]
+    · simp [TcpProd.Sys.room, h, hn]
+  simp [TcpProd.Sys.trySend, hr]
+
+/-- a closed gate (no client connected) means the emitter neither enqueues nor wakes: its call returns -/
+theorem closed_gate_emits_nothing (s : TcpProd.Sys) (i : Nat) (hg : s.gate = false) :
+    (TcpProd.emGate s i).chan = s.chan ∧ (TcpProd.emGate s i).wakePending = s.wakePending ∧
+    (TcpProd.emGate s i).ems i = (s.ems i).next := by
+  simp [TcpProd.emGate, hg, TcpProd.Sys.setEm]
+
+/-- **the full clause "serves for every buffer configuration" is false of the code: `Some(0)`.**
+    With `buffer_size(Some(0))` (zero-capacity channel, zero batch limit) no emission is ever accepted and no
+    batch is ever non-empty, for every schedule, every number of emitters and an open gate … -/
+theorem zero_buffer_never_delivers (shape : TcpProd.Shape) (gate : Bool) (progs : List (List Nat))
+    (sched : List TcpProd.Tid) :
+    (TcpProd.run (TcpProd.init shape (some 0) gate progs) sched).accepted = [] ∧
+    (TcpProd.run (TcpProd.init shape (some 0) gate progs) sched).delivered = [] := by
+  have h := TcpProd.run_zero (TcpProd.init shape (some 0) gate progs) sched ⟨rfl, rfl, rfl, rfl, rfl⟩
+  exact ⟨h.2.2.1, h.2.2.2.2⟩
+
+/-- … and from its first wake-up on the transport thread never blocks again: each pass through the `WAKER`
+    branch re-arms the waker (`buffered_pmsgs.len() >= 0`), a busy loop. -/
+theorem zero_buffer_spins (shape : TcpProd.Shape) (gate : Bool) (progs : List (List Nat))
+    (pre post : List TcpProd.Tid)
+    (h : TcpProd.Spinning (TcpProd.run (TcpProd.init shape (some 0) gate progs) pre)) :
+    TcpProd.Spinning (TcpProd.run (TcpProd.run (TcpProd.init shape (some 0) gate progs) pre) post) := by
+  have hz := TcpProd.run_zero (TcpProd.init shape (some 0) gate progs) pre ⟨rfl, rfl, rfl, rfl, rfl⟩
+  generalize TcpProd.run (TcpProd.init shape (some 0) gate progs) pre = s at h hz
+  induction post generalizing s with
+  | nil => exact h
+  | cons t' ts ih =>
+    refine ih _ (TcpProd.step_spinning s t' hz h) ?_
+    cases t' with
+    | em i => exact TcpProd.emStep_zero s i hz
+    | t => exact TcpProd.tStep_zero s hz
+
+/-- concrete witness: one emitter, open gate, `Some(0)`: after the emission and any number of transport
+    passes nothing was delivered and the transport is still runnable -/
+theorem zero_buffer_witness :
+    let s := TcpProd.run (TcpProd.init .sendThenWake (some 0) true [[7]])
+      [.em 0, .em 0, .em 0, .t, .t, .t, .t]
+    s.delivered = [] ∧ s.accepted = [] ∧ (s.ems 0).pc = .done ∧ TcpProd.enabled s .t = true := by decide
+
+/-- the provable part of "starts and serves for every buffer configuration": for `None` and every
+    `Some(n)`, `n ≥ 1`, an emission made while the channel has room is accepted, and by
+    `quiescent_all_delivered` reaches a batch. -/
+theorem serves_for_all_configs_partial (s : TcpProd.Sys) (id : Nat)
+    (h : s.cap = none ∨ ∃ n, s.cap = some (n + 1)) (hempty : s.chan = []) :
+    id ∈ (s.trySend id).accepted := by
+  have := (send_accepted_within_buffer s id (by
+    rcases h with h | ⟨n, h⟩
+    · exact Or.inl h
+    · exact Or.inr ⟨n + 1, h, by rw [hempty]; simp⟩)).2
+  rw [this]; simp
+
+/-! #### the two other orders of the producer's operations lose wake-ups (witnesses; NOT the code) -/
+
+/-- `let w = tx.is_empty(); try_send(..); if w { wake() }` (seeded change C11-2): emitter 1 samples a non-empty
+    channel, the transport drains it and goes back to `poll`, emitter 1 enqueues without waking: metric 2
+    sits in the channel and nothing can move. -/
+theorem wake_if_was_empty_loses_wakeup :
+    let s := TcpProd.run (TcpProd.init .wakeIfWasEmpty (some 1024) true [[1], [2]])
+      [.em 0, .em 0, .em 0, .t, .em 1, .t, .t, .em 1]
+    s.chan = [2] ∧ s.delivered = [1] ∧ (s.ems 0).pc = .done ∧ (s.ems 1).pc = .done ∧
+    s.tpc = .idle ∧ s.wakePending = false := by decide
+
+/-- `wake(); try_send(..)`: the transport handles the wake-up before the event is enqueued -/
+theorem wake_before_send_loses_wakeup :
+    let s := TcpProd.run (TcpProd.init .wakeThenSend (some 1024) true [[1]])
+      [.em 0, .em 0, .t, .t, .em 0]
+    s.chan = [1] ∧ s.delivered = [] ∧ (s.ems 0).pc = .done ∧ s.tpc = .idle ∧ s.wakePending = false := by
+  decide
+
+/-- non-vacuity: two emitters and the transport interleaved, everything delivered in channel order -/
+example :
+    let s := TcpProd.run (prodInit (some 2) true [[1, 3], [2]])
+      [.em 0, .em 1, .em 1, .em 0, .em 1, .t, .t, .em 0, .em 0, .em 0, .em 0, .t, .t, .t, .t, .t, .t]
+    s.delivered = [2, 1, 3] ∧ s.chan = [] ∧ s.wakePending = false ∧ s.tpc = .idle := by decide
+
+/-! ### source facts (tools/extract.py → Generated/SourceFacts.lean): what a run cannot observe -/
+
+/-- `State::push_metric` is `if should_send() { try_send(..); wake() }`: the model's shape is the code's -/
+theorem src_push_metric_shape :
+    TcpProd.shapeOf Generated.tcp_push_metric_calls Generated.tcp_push_metric_ifs = some .sendThenWake := by
+  decide
+
+/-- `State::register_metric` (describe_*) enqueues and wakes unconditionally -/
+theorem src_register_metric_wakes :
+    Generated.tcp_register_metric_calls = ["try_send", "wake"] ∧ Generated.tcp_register_metric_ifs = 0 := by
+  decide
+
+/-- `register_*` never consult the gate and `Handle::new` stores nothing but key and state: a handle that
+    outlives a gate transition keeps working (the gate is read per emission, in `push_metric`) -/
+theorem src_handles_ignore_gate :
+    Generated.tcp_register_handle_calls =
+      [("register_counter", "from_arc Handle::new"), ("register_gauge", "from_arc Handle::new"),
+       ("register_histogram", "from_arc Handle::new")] ∧
+    Generated.tcp_handle_new_body = "{ Handle { key, state } }" := by decide
+
+/-- orderings of the gate: load Acquire; fetch_add AcqRel then store(true) Release; fetch_sub AcqRel then
+    store(false) Release when the old count was 1 -/
+theorem src_gate_orderings :
+    Generated.tcp_gate_orderings = ["Acquire", "AcqRel", "Release", "AcqRel", "Release"] ∧
+    Generated.tcp_decrement_test = "count == 1" := by decide
+
+/-- the write path compiled WITHOUT the verification cfg is a single `conn.write(buf)` (the hook's `verif::write`
+    stands for exactly this call), and `drive_connection` writes only through it -/
+theorem src_production_write_is_single_write :
+    Generated.tcp_write_to_client_prod = "{ conn.write(buf) }" ∧
+    Generated.tcp_drive_write_calls = ["write_to_client"] := by decide
+
+/-- the per-client branch of the event loop acts on WRITABLE only: it never reads from a client and does not
+    look at read-closed / error readiness (a half-closed or talking client keeps being served) -/
+theorem src_client_branch_writes_only :
+    Generated.tcp_client_event_calls = ["is_writable", "drive_connection", "decrement_clients"] ∧
+    Generated.tcp_client_interest = "Interest::READABLE.add(Interest::WRITABLE)" := by decide
+
+/-- the accept loop takes a fresh token inside the loop for every connection and only leaves on WouldBlock
+    (`break`) or an accept error (`return`) -/
+theorem src_accept_loop :
+    Generated.tcp_accept_loop_tokens =
+      ["loop", "accept", "next", "register", "register", "increment_clients", "insert", "break", "return"] := by
+  decide
+
+/-- every metric frame gets its own `SystemTime::now()` -/
+theorem src_timestamp_per_metric :
+    Generated.tcp_metric_timestamp_calls = ["now", "encode_length_delimited"] := by decide
 
 end MetricsVerif.C11
